@@ -180,7 +180,8 @@ def pool_for(pid, tier, seed):
         extra = [c for c in cfggen.allocator_pool() if not c['alloc'][3]][::3]
         return allp + extra
     if n in (13, 14):
-        return [c for c in allp if 'moveonly' not in c['tags']]
+        # std::unique_ptr compares by identity: content-based comparison oracles do not apply to such lists
+        return [c for c in allp if 'moveonly' not in c['tags'] and 'uptr' not in c['name']]
     if n == 17:
         names = ['u32_float__A0000', 'Ffloat_u32_Ffloat__A0000', 'FTracked_u8__A0000', 'u8_Vu8_u16__A0000', 'u8_VTracked__A0000',
                  'u8_VTracked_u16_FTracked__A0000', 'u16_VTrackeda8_u32a4__A0000', 'Fu8_u8a4_Fu8__A0000', 'FTrackedMO_TrackedMO__A0000',
